@@ -194,3 +194,52 @@ def c11_network_handshake_gate(ctx, v):
     c17_network_gate)."""
     from . import obl_c17
     obl_c17.c17_network_gate(ctx, v)
+
+
+def c11_shared_ancestor_total(ctx, v):
+    """Blockchain::generate_last_shared_ancestor — run by the routing thread on the
+    latest-block id and fork id a peer puts in a BlockchainRequest / GhostChainRequest, before
+    any handshake — for EVERY peer id, fork id and own tip height: it returns (no arithmetic
+    panic, no index panic) in both modes (peer ahead / peer behind).  The longest-chain index
+    answers every look-up with some hash (a miss continues the checkpoint loop exactly like a
+    mismatch does), so the walk is driven only by the peer's two values and the own tip."""
+    from .models import mk_some
+    body = ctx.body(r"blockchain::<impl at [^>]*>::generate_last_shared_ancestor$")
+    ex = ctx.executor(loop_bound=20, inline="auto", max_paths=4000, no_inline=[r"get_longest_chain_block_hash_at_block_id$", r"get_latest_block_id$", r"hex::", r"to_hex"])
+    ex.pure = [r".*"]
+    mine = ex.fresh_value("u64", "my_tip")
+    peer = ex.fresh_value("u64", "peer_latest_block_id")
+    fid = ex.fresh_value("[u8; 32]", "peer_fork_id")
+
+    def hook(ex_, st, callee, args, dty):
+        if re.search(r"get_longest_chain_block_hash_at_block_id$", callee):
+            h = ex_.fresh_value("[u8; 32]", "own_hash!%d" % next(ex_.fresh_counter))
+            # the comparison at a checkpoint reads two bytes; "first byte differs" and "first equal, second differs" leave
+            # the walk in the same state, so the first case is folded into the second (every even byte agrees with the fork id)
+            st.pc.extend([z3.Select(h.arr, z3.BitVecVal(2 * i, 64)) == z3.Select(fid.arr, z3.BitVecVal(2 * i, 64)) for i in range(16)])
+            return mk_some(dty, h)
+        if re.search(r"get_latest_block_id$", callee):
+            return ex_.copy_value(mine)
+        return None
+    ex.on_call = hook
+    outs = ex.run(body, [S.Ref(S.Cell(S.Opaque("blockchain", "Blockchain"))), peer, fid], S.State())
+    v.paths += len(outs)
+    rets = 0
+    for o in outs:
+        if o.kind in ("unsupported", "unwound", "path-limit"):
+            return v.undecided("%s %s" % (o.kind, o.info))
+        if o.kind == "panic":
+            r, m = ex.model_for(o.pc)
+            v.queries += 1
+            if r == z3.sat:
+                wit = dict(peer_latest_block_id=m.eval(peer.bv, model_completion=True).as_long(), my_tip=m.eval(mine.bv, model_completion=True).as_long(), panic=o.info)
+                if L.depends_on_unknowns(o):
+                    return v.undecided("a panic path depends on an unmodelled callee: %s" % o.info)
+                v.fail("a peer-chosen latest block id / fork id makes generate_last_shared_ancestor panic (peer id %d, own tip %d): %s" % (wit["peer_latest_block_id"], wit["my_tip"], o.info), wit)
+            elif r != z3.unsat:
+                return v.undecided("solver: no verdict on a panic path")
+            continue
+        if o.kind == "return":
+            rets += 1
+    v.covers_total += 1
+    v.covers_sat += 1 if rets else 0
